@@ -7,7 +7,7 @@
    exactly the authenticated ones and the context is that of its own kind. *)
 From Coq Require Import String.
 From Coq Require Import NArith ZArith List Bool.
-From Cose Require Import Lib.Base Lib.Cbor Model.GoVal Model.Wire Model.MsgLogic Model.Msg Model.MsgProofs Spec.RFC9052.
+From Cose Require Import Lib.Base Lib.Cbor Model.GoVal Model.Wire Model.MsgLogic Model.Msg Model.MsgProofs Spec.RFC9052 Lib.GoSem Model.HdrSem Gen.LookupGen Model.LookupProofs.
 Import ListNotations.
 
 (* the to-be-signed / to-be-MACed bytes determine context, protected bytes, external data and payload *)
@@ -81,3 +81,12 @@ Theorem C02_sign_every_signature_has_a_verifier : forall pany vs data ext v sigs
   sign_consume pany vs data ext = Ok (v, sigs) -> In s sigs -> lookup_prim vs (get_bytes_ (omap (se_unprot s)) 4) <> None.
 Proof. exact sign_unmatched_signature. Qed.
 Print Assumptions C02_sign_every_signature_has_a_verifier.
+
+(* ---- the source of COSE_Sign verification: SignMessage.Verify as regenerated from cose/sign.go on every run (translator
+   T15: the guards, the loop over the decoded signatures, the verifier found by the signature's kid, the algorithm gate
+   on the signer's protected bucket, the Sig_structure built from the signer's RECEIVED protected bytes, the call of the
+   verifier) is the model's verify_all: every signature is checked, each against its own structure *)
+Theorem C02_sign_verify_source_is_model : forall vs ext w sigs,
+  cose_SignMessage_Verify vs ext w sigs = verify_decoded vs ext w sigs.
+Proof. exact gen_sign_verify. Qed.
+Print Assumptions C02_sign_verify_source_is_model.
